@@ -1,13 +1,33 @@
 package p2pke
 
+import (
+	"io"
+
+	"golang.org/x/crypto/blake2b"
+)
+
 // C03: a session is usable only after the peer proved its key for this handshake.
 // C06: the handshake never regresses, never panics, is idempotent and makes progress.
 // One inductive step of Session.Deliver from an arbitrary invariant-satisfying state with an
 // arbitrary packet; Noise, protobuf and asn1 leaves are engine-level models, the Verifier is a
 // recording stub that may answer anything.
 
+// vRefPreSig is the harness's own statement of what is signed: XOF(len(purpose) || purpose || msg).
+// (It must not call createPreSig: a defect there would then be on both sides of the comparison.)
+func vRefPreSig(purpose string, data []byte) (ret [64]byte) {
+	h, err := blake2b.NewXOF(64, nil)
+	if err != nil {
+		panic(err)
+	}
+	h.Write([]byte{uint8(len(purpose))})
+	h.Write([]byte(purpose))
+	h.Write(data)
+	io.ReadFull(h, ret[:])
+	return ret
+}
+
 func vFindVerify(key []byte, purpose string, data []byte) bool {
-	want, _ := createPreSig(purpose, data)
+	want := vRefPreSig(purpose, data)
 	found := false
 	for i := range vVerifyLog {
 		c := vVerifyLog[i]
